@@ -4,15 +4,14 @@
    [day_inert_concrete]    : then the concrete day is the same (both raise, or the same new state and rows).
    [run_inert_concrete], [run_steps_inert_concrete] : then the whole run is the same (tables, summary rows, final state,
                              the step at which it stops if a process raises, fuel exhaustion).
-   Neutral values: mulches with cover 0 or factor 0 behave as no mulches ([day_mulch_neutral_concrete],
-   [run_mulch_neutral]); a surface irrigation strategy at constant depth 0 / all-zero schedule / daily maximum 0 / seasonal
-   maximum 0 behaves, wherever its day is defined, as the rainfed configuration ([day_irrigation_neutral_concrete],
-   [run_neutral_concrete]).
+   [init_state_inert], [run_from_init_inert] : the initial state object and the run right after initialisation as well.
+   Neutral values (mulch cover / factor 0, constant depth 0, all-zero schedule, daily / seasonal maximum 0): InertRunN.v.
    Unit-level ingredients: InertR.v, InertRunU.v, EvaporationR.v, RootsR.v; schemes: InertRunS.v. *)
 From Coq Require Import List Bool ZArith Lia.
 From AC Require Import Num RInst Params Kernels Clock Day DayConcrete RunConcrete.
 From AC.Water Require RootZone RainIrr Infiltration Drainage Groundwater Evaporation Transpiration.
 From AC.Crop Require Canopy Roots Yield.
+From AC.Init Require InitState.
 From AC.proofs Require Import ProfR DayP DayConcreteP InertR InertRunU InertRunS.
 From AC.proofs Require EvaporationR RootsR RainIrrR YieldR.
 Import ListNotations.
@@ -346,6 +345,42 @@ Section RunInert.
   Qed.
 End RunInert.
 
+(* ---- initialisation: the initial state object does not read the differing places either ------------------------- *)
+Lemma init_surface_inert f f' : field_inert_eq f f' -> InitState.init_surface f' = InitState.init_surface f.
+Proof.
+  intros Hf. unfold InitState.init_surface. rewrite <- (fe_bunds _ _ Hf).
+  destruct (f_bunds f) eqn:Eb; [|reflexivity].
+  rewrite <- (fe_z_bund _ _ Hf Eb). cbn [andb].
+  destruct (nltb num_ops (1#/1000)%num (f_z_bund f)) eqn:Ez; [|reflexivity].
+  rewrite <- (fe_bund_water _ _ Hf Eb (nltb_true_lt _ _ Ez)). reflexivity.
+Qed.
+
+Theorem init_state_inert par par' k zgw0 fcr th0 : par_inert_eq par par' ->
+  InitState.init_state par k zgw0 fcr th0 = InitState.init_state par' k zgw0 fcr th0.
+Proof.
+  intros HE. unfold InitState.init_state. cbv zeta.
+  rewrite <- (pe_soil _ _ HE), <- (pe_crop _ _ HE), <- (pe_water_table _ _ HE),
+          (init_surface_inert _ _ (pe_field _ _ HE)), (init_surface_inert _ _ (pe_fallow_field _ _ HE)).
+  reflexivity.
+Qed.
+
+(* run_model right after _initialize(): same initial state, same model, same run *)
+Theorem run_from_init_inert par par' crops c ws k zgw0 fcr th0 fuel : par_inert_eq par par' ->
+  match InitState.init_state par k zgw0 fcr th0 with
+  | Some s0 => match init_c c s0 with Ok m0 => Some (run_till_c par crops c ws fuel m0) | Raise _ => None end
+  | None => None
+  end =
+  match InitState.init_state par' k zgw0 fcr th0 with
+  | Some s0 => match init_c c s0 with Ok m0 => Some (run_till_c par' crops c ws fuel m0) | Raise _ => None end
+  | None => None
+  end.
+Proof.
+  intros HE. rewrite <- (init_state_inert par par') by exact HE.
+  destruct (InitState.init_state par k zgw0 fcr th0) as [s0|]; [|reflexivity].
+  destruct (init_c c s0) as [m0|e]; [|reflexivity].
+  rewrite (run_inert_concrete par par' crops HE). reflexivity.
+Qed.
+
 (* ================================================================================================================ *)
 (*  5. the relation is not the identity: two different records it relates                                             *)
 (* ================================================================================================================ *)
@@ -394,3 +429,4 @@ End ExInert.
 Print Assumptions day_inert_concrete.
 Print Assumptions run_inert_concrete.
 Print Assumptions run_steps_inert_concrete.
+Print Assumptions run_from_init_inert.
